@@ -540,6 +540,21 @@ func (u *Unit) jump(s *State, f *Frame, to *ssa.BasicBlock) {
 		if li.body[top.Head][to] {
 			break
 		}
+		if top.Spec != nil && len(top.Spec.Exits) > 0 {
+			env := u.specEnv(s, f)
+			fk := fnKey(f.Fn)
+			for i, ex := range top.Spec.Exits {
+				name := fmt.Sprintf("%s#exit.%d.%d", shortKey(fk), top.Ord, i+1)
+				u.oblige(s, name, "exit", f.Block.Instrs[len(f.Block.Instrs)-1].Pos(), fmt.Sprintf("loop %d is left only when: %s", top.Ord, ex.Text), u.evalBool(env, ex.E))
+			}
+		}
+		if top.Spec != nil && len(top.Spec.ExitAssume) > 0 {
+			env := u.specEnv(s, f)
+			for _, ex := range top.Spec.ExitAssume {
+				u.Assumed[fmt.Sprintf("assumed on leaving loop %d of %s: %s", top.Ord, shortKey(fnKey(f.Fn)), ex.Text)] = true
+				s.assume(u.evalBool(env, ex.E))
+			}
+		}
 		f.Loops = f.Loops[:len(f.Loops)-1]
 	}
 	f.Prev = f.Block
